@@ -3,10 +3,10 @@ from props import endpoint, receiver
 
 
 def check(pid, tier, replay):
-    names = ["da", "db", "dc"] if tier == "thorough" else ["a", "b"]
+    names = ["da", "db", "dc", "lb"] if tier == "thorough" else ["a", "b", "lb"]
     gens = [("endpoint/SettleGen", "endpoint/SettleGen_%s.cfg" % n) for n in names] + receiver.gens(tier)[:2] + [("endpoint/SettleRaceGen", "endpoint/SettleRaceGen.cfg")]
     endpoint.run(pid, tier, replay, ("C02_",), [("endpoint/Settle", None), ("endpoint/SettleRace", "endpoint/SettleRace.cfg")], gens,
-                 "two sending links on one session; every sequence up to the depth bound over {batchable send on either link, pre-settled send, dispositions: single id, "
+                 "two sending links on one session (attached by a client, and accepted by a listener); every sequence up to the depth bound over {batchable send on either link, pre-settled send, dispositions: single id, "
                  "ranges over several deliveries and both links, settled / unsettled terminal states, non-terminal received, await of the k-th outcome}, rcv-settle-mode first and "
                  "second; the schedule of SettleRace.tla replayed through the schedule point send.after_enqueue; receiver side: the RecvGen scripts (dispositions the EUT emits for accept / accept_all / auto-accept); distinct = distinct scripts",
                  negatives=[("endpoint/SettleRace", "endpoint/SettleRace_code.cfg", "C02_NothingLost")])
